@@ -189,6 +189,7 @@ func injectSSOFault(r *rand.Rand, rec *sim.Response, now time.Time, f string) st
 func runC03(c *mon.Ctx) {
 	now := BaseTime(c.Seed)
 	w := NewWorld(now)
+	pool := &SPPool{}
 	n := c.N(5000, 300000)
 	for k := 0; k < n; k++ {
 		cs := c.Begin("profile-faults", k)
@@ -235,7 +236,7 @@ func runC03(c *mon.Ctx) {
 		}
 		cs.Desc("na=%d faults=%v mode=%s cfgIssuer=%q", na, faults, mode, cfgIssuer)
 		cs.Input([]byte(doc))
-		sp, _, _ := NewSP(now, signer)
+		sp, _, _ := pool.SPSource(k, now, signer)
 		sp.IdentityProviderIssuer = cfgIssuer
 		sp.SkipSignatureValidation = mode == "skip"
 		enc := sim.Encode(doc, sim.RawLevel)
